@@ -26,7 +26,7 @@ from __future__ import annotations
 import ast
 
 from ..model import AnchorError, norm, walk_no_nested
-from ..runstate import Explorer, CONTROL, show, sd, IMPL, ENGINE
+from ..runstate import Explorer, Explorers, CONTROL, show, sd, IMPL, ENGINE
 from ..util import cfg_of, call_attr, assigned_attrs, node_calls
 from ..cfg import facts_at
 
@@ -256,7 +256,10 @@ def run(ctx) -> None:
                 else:
                     ctx.fail("R09c", f, st, inst, "_prev_state written outside the control commands")
     # ---- R09d
-    ex = Explorer(ctx, faults=True, track=("prev", "cap", "outs", "bad_restore", "err"))
+    # two explorations: one user request per tick gap with a scheduler that may let in-flight commands stall (coarse), and two
+    # requests per gap with the exact scheduler of execute_commands (every driven command steps in every tick)
+    ex = Explorers(Explorer(ctx, faults=True, track=("prev", "cap", "outs", "bad_restore", "err")),
+                   Explorer(ctx, faults=True, track=("prev", "cap", "outs", "bad_restore", "err"), max_pending=2, exact=True))
     ex.explore()
     ctx.extra["states"] = len(ex.reach)
     ctx.extra["transitions"] = ex.edges
